@@ -132,7 +132,22 @@ def scan_repo(root):
 
     LOCAL_DOS = [set()]
     sites = []
+    def _is_id_call(e):
+        return isinstance(e, ast.Call) and isinstance(e.func, ast.Name) and e.func.id == "id" and len(e.args) == 1
+
     for f, tree in trees.items():
+        # id(x) used only for identity bookkeeping - compared (in / not in / == / is), put into or looked up in a set or dict
+        # (visited.add(id(x)), seen[id(x)], d.get(id(x))) - cannot reach output as a value; iterating such a set is a
+        # set-iteration site of its own
+        exempt = set()
+        for m in ast.walk(tree):
+            if isinstance(m, ast.Compare) and all(isinstance(o, (ast.In, ast.NotIn, ast.Eq, ast.NotEq, ast.Is, ast.IsNot)) for o in m.ops):
+                exempt.update(id(e) for e in [m.left] + m.comparators if _is_id_call(e))
+            if isinstance(m, ast.Call) and isinstance(m.func, ast.Attribute) and m.args and _is_id_call(m.args[0]) \
+                    and m.func.attr in ("add", "discard", "remove", "get", "setdefault", "pop", "__contains__"):
+                exempt.add(id(m.args[0]))
+            if isinstance(m, ast.Subscript) and _is_id_call(m.slice):
+                exempt.add(id(m.slice))
         rel = os.path.relpath(f, root)
 
         class V(ast.NodeVisitor):
@@ -206,7 +221,7 @@ def scan_repo(root):
                 if isinstance(f, ast.Attribute) and isinstance(f.value, ast.Name) and f.value.id in DRAW_MODULES \
                         and f.attr not in ("UUID", "strptime", "fromisoformat", "timedelta", "date", "datetime"):
                     s.add("draw", n, n)
-                if isinstance(f, ast.Name) and f.id in DRAW_FUNCS:
+                if isinstance(f, ast.Name) and f.id in DRAW_FUNCS and id(n) not in exempt:
                     s.add("draw", n, n)
                 s.generic_visit(n)
 
